@@ -82,7 +82,9 @@ def scenario(sseed, kind):
         else:
             t = T(build, objective=objective, max_epochs=R.choice([2, 3, 4]), factor=2, hyperband_iterations=1,
                   executions_per_trial=nexec, directory=d, project_name="p", seed=R.randint(1, 99))
-            t.search(x, y, verbose=0, callbacks=[make_callback()])
+            # `epochs=` / `initial_epoch=` given to search() (as the tutorial does) must not override the round's schedule
+            extra = R.choice([{}, {"epochs": 9}, {"epochs": 1, "initial_epoch": 0}, {"epochs": 9}])
+            t.search(x, y, verbose=0, callbacks=[make_callback()], **extra)
         sign = 1 if direction == "min" else -1
         tags = {"trials": 0, "promoted": 0}
         for tid, tr in t.oracle.trials.items():
